@@ -841,6 +841,17 @@ func (k Keeper) WasmMsgGetSurplusFund(ctx sdk.Context, appID, assetID uint64, ad
 	return nil
 }
 
+// SetGenCollectorLookupTable stores an exported collector lookup record as it is (genesis import).
+func (k Keeper) SetGenCollectorLookupTable(ctx sdk.Context, record types.CollectorLookupTableData) {
+	var (
+		store = ctx.KVStore(k.storeKey)
+		key   = types.CollectorLookupTableMappingKey(record.AppId, record.CollectorAssetId)
+		value = k.cdc.MustMarshal(&record)
+	)
+
+	store.Set(key, value)
+}
+
 func (k Keeper) SetGenAuctionMappingForApp(ctx sdk.Context, record types.AppAssetIdToAuctionLookupTable) {
 	var (
 		store = ctx.KVStore(k.storeKey)
